@@ -57,7 +57,7 @@ class SyntheticPartialsAccumulator:
     ) -> dict[str, Expression]:
         results: dict[str, Expression]
         results = {}
-        for variable_name in variable_names:
+        for variable_name in sorted(variable_names): # a fixed order: callers evaluate the partials in dictionary order
             optional = self._synthetic_partials.get(variable_name, None)
             if optional is None:
                 results[variable_name] = ex.Constant(0)
